@@ -543,10 +543,21 @@ func (cp *ClientPromise) Fulfill(c *Client) {
 		cp.h.mu.Unlock()
 		panic("ClientPromise.Resolve called more than once")
 	}
-	cp.h.resolvedHook = rh
-	close(cp.h.resolved)
 	refs := cp.h.refs
 	cp.h.refs = 0
+	if refs > 0 && rh != nil {
+		// Transfer the references before the resolution becomes visible:
+		// otherwise a concurrent Release through cp.h could reach the
+		// resolved hook first and drop its count to zero while it is
+		// still in use.
+		rh.mu.Lock()
+		if r := resolveHook(rh); r != nil {
+			r.refs += refs
+			r.mu.Unlock()
+		}
+	}
+	cp.h.resolvedHook = rh
+	close(cp.h.resolved)
 	if refs == 0 {
 		cp.h.mu.Unlock()
 		return
@@ -556,11 +567,7 @@ func (cp *ClientPromise) Fulfill(c *Client) {
 	if cp.h.calls == 0 {
 		close(cp.h.done)
 	}
-	rh = resolveHook(cp.h) // swaps mutex on cp.h for mutex on rh
-	if rh != nil {
-		rh.refs += refs
-		rh.mu.Unlock()
-	}
+	cp.h.mu.Unlock()
 	<-cp.h.done
 	cp.h.Shutdown()
 }
